@@ -8,14 +8,44 @@ Open Scope Z_scope.
 Definition bounded (l : list (option Z)) : Prop :=
   forall p o, nth_error l p = Some (Some o) -> 0 <= o <= BUSY.
 
+(* lfs / mem: a number that went down by what is held and is still >= 0, or not reported (None) *)
+Definition amount_rel (held : Z) (a0 a : option Z) : Prop :=
+  match a0 with
+  | Some x => a = Some (x - held) /\ 0 <= x - held
+  | None => a = None
+  end.
+
+Lemma amount_rel_functional held a0 a b : amount_rel held a0 a -> amount_rel held a0 b -> a = b.
+Proof. unfold amount_rel. destruct a0; [intros [-> _] [-> _] | intros -> ->]; reflexivity. Qed.
+
+(* taking `want` (find_slot's test passed) *)
+Lemma amount_rel_take held want a0 a :
+  amount_rel held a0 a -> 0 <= want ->
+  match a with Some l => negb (want =? 0) && (l <? want) | None => false end = false ->
+  amount_rel (held + want) a0 (match a with Some l => Some (l - want) | None => None end).
+Proof.
+  unfold amount_rel. destruct a0 as [x|]; [intros [-> Hge] | intros ->]; intros Hw Ht; [|reflexivity].
+  split; [f_equal; lia|].
+  destruct (want =? 0) eqn:E0; [apply Z.eqb_eq in E0; lia|]. cbn in Ht. apply Z.ltb_ge in Ht. lia.
+Qed.
+
+(* giving `back` back *)
+Lemma amount_rel_give held held' back a0 a :
+  amount_rel held a0 a -> held = held' + back -> 0 <= back ->
+  amount_rel held' a0 (match a with Some l => Some (l + back) | None => None end).
+Proof.
+  unfold amount_rel. destruct a0 as [x|]; [intros [-> Hge] | intros ->]; intros -> Hb; [|reflexivity].
+  split; [f_equal; lia | lia].
+Qed.
+
 (* fc j / fg j: what is held of core / GPU j of this node; fl, fm: of its lfs / mem *)
 Record NodeRel (fc fg : Z -> Z) (fl fm : Z) (n0 n : node) : Prop := mkNR {
   nr_idx  : nd_index n = nd_index n0;
   nr_name : nd_name n = nd_name n0;
   nr_c    : shifted fc (nd_cores n0) (nd_cores n);
   nr_g    : shifted fg (nd_gpus n0) (nd_gpus n);
-  nr_l    : exists l0, nd_lfs n0 = Some l0 /\ nd_lfs n = Some (l0 - fl) /\ 0 <= l0 - fl;
-  nr_m    : exists m0, nd_mem n0 = Some m0 /\ nd_mem n = Some (m0 - fm) /\ 0 <= m0 - fm;
+  nr_l    : amount_rel fl (nd_lfs n0) (nd_lfs n);
+  nr_m    : amount_rel fm (nd_mem n0) (nd_mem n);
   nr_bc   : bounded (nd_cores n);
   nr_bg   : bounded (nd_gpus n);
   nr_b0c  : bounded (nd_cores n0);
@@ -67,13 +97,13 @@ Lemma NodeRel_functional fc fg fl fm n0 x y :
   NodeRel fc fg fl fm n0 x -> NodeRel fc fg fl fm n0 y -> x = y.
 Proof.
   intros Hx Hy.
-  destruct Hx as [xi xn xc xg [xl0 [xl1 [xl2 _]]] [xm0 [xm1 [xm2 _]]] _ _ _ _ _ _ _ _ _ _].
-  destruct Hy as [yi yn yc yg [yl0 [yl1 [yl2 _]]] [ym0 [ym1 [ym2 _]]] _ _ _ _ _ _ _ _ _ _].
+  destruct Hx as [xi xn xc xg xl xm _ _ _ _ _ _ _ _ _ _].
+  destruct Hy as [yi yn yc yg yl ym _ _ _ _ _ _ _ _ _ _].
   destruct x as [a1 a2 a3 a4 a5 a6], y as [b1 b2 b3 b4 b5 b6]. cbn in *.
   assert (a3 = b3) by (eapply shifted_functional; eauto).
   assert (a4 = b4) by (eapply shifted_functional; eauto).
-  assert (a5 = b5) by congruence.
-  assert (a6 = b6) by congruence.
+  assert (a5 = b5) by (eapply amount_rel_functional; eauto).
+  assert (a6 = b6) by (eapply amount_rel_functional; eauto).
   congruence.
 Qed.
 
@@ -153,20 +183,17 @@ Proof.
   set (gpus := if r_ng r =? 0 then [] else pick (r_go r) (r_ng r) (nd_gpus n) 0 []) in *.
   destruct (negb (r_nc r =? 0) && (zlen cores <? r_nc r)) eqn:Ec; [injection Hf as <- <-; reflexivity|].
   destruct (negb (r_ng r =? 0) && (zlen gpus <? r_ng r)) eqn:Eg; [injection Hf as <- <-; reflexivity|].
-  destruct HR as [Hidx Hname Hsc Hsg [l0 [Hl0 [Hl Hlge]]] [m0 [Hm0 [Hm Hmge]]] Hbc Hbg Hb0c Hb0g Hfc Hfg Hfl Hfm Hdc Hdg].
-  rewrite Hl, Hm in Hf.
-  destruct (negb (r_lfs r =? 0) && (l0 - fl <? r_lfs r)) eqn:El; [injection Hf as <- <-; reflexivity|].
-  destruct (negb (r_mem r =? 0) && (m0 - fm <? r_mem r)) eqn:Em; [injection Hf as <- <-; reflexivity|].
+  destruct HR as [Hidx Hname Hsc Hsg Hl Hm Hbc Hbg Hb0c Hb0g Hfc Hfg Hfl Hfm Hdc Hdg].
+  destruct (match nd_lfs n with Some l => negb (r_lfs r =? 0) && (l <? r_lfs r) | None => false end) eqn:El;
+    [injection Hf as <- <-; reflexivity|].
+  destruct (match nd_mem n with Some m => negb (r_mem r =? 0) && (m <? r_mem r) | None => false end) eqn:Em;
+    [injection Hf as <- <-; reflexivity|].
   pose proof (pick_part (r_co r) (r_nc r) (nd_cores n) Hnc Ec) as Htc. fold cores in Htc.
   pose proof (pick_part (r_go r) (r_ng r) (nd_gpus n) Hng Eg) as Htg. fold gpus in Htg.
   destruct (alloc_list_ok cores (nd_cores n) (takes_fit _ _ _ (proj1 Htc))) as [cs' [Hac Hshc]].
   destruct (alloc_list_ok gpus (nd_gpus n) (takes_fit _ _ _ (proj1 Htg))) as [gs' [Hag Hshg]].
-  unfold alloc_apply in Hf. cbn [s_cores s_gpus s_lfs s_mem] in Hf. rewrite Hac, Hag, Hl, Hm in Hf.
+  unfold alloc_apply in Hf. cbn [s_cores s_gpus s_lfs s_mem] in Hf. rewrite Hac, Hag in Hf.
   injection Hf as <- <-.
-  assert (Hlfs' : 0 <= l0 - fl - r_lfs r).
-  { destruct (r_lfs r =? 0) eqn:E0; [apply Z.eqb_eq in E0; lia|]. cbn in El. apply Z.ltb_ge in El. lia. }
-  assert (Hmem' : 0 <= m0 - fm - r_mem r).
-  { destruct (r_mem r =? 0) eqn:E0; [apply Z.eqb_eq in E0; lia|]. cbn in Em. apply Z.ltb_ge in Em. lia. }
   split.
   - constructor; cbn; auto.
   - constructor; cbn [nd_index nd_name nd_cores nd_gpus nd_lfs nd_mem s_cores s_gpus s_lfs s_mem].
@@ -174,8 +201,8 @@ Proof.
     + exact Hname.
     + exact (shifted_comp _ _ _ _ _ Hsc Hshc).
     + exact (shifted_comp _ _ _ _ _ Hsg Hshg).
-    + exists l0. split; [exact Hl0 | split; [f_equal; lia | lia]].
-    + exists m0. split; [exact Hm0 | split; [f_equal; lia | lia]].
+    + exact (amount_rel_take _ _ _ _ Hl Hlfs El).
+    + exact (amount_rel_take _ _ _ _ Hm Hmem Em).
     + exact (bounded_after_take _ _ _ _ _ Hco Hbc Htc Hshc).
     + exact (bounded_after_take _ _ _ _ _ Hgo Hbg Htg Hshg).
     + exact Hb0c.
@@ -202,7 +229,7 @@ Theorem deallocate_spec fc fg fl fm fc' fg' fl' fm' n0 n s :
   exists n', deallocate_slot n s = (n', None) /\ NodeRel fc' fg' fl' fm' n0 n'.
 Proof.
   intros HR Hfitc Hfitg Hnc Hng Hl Hm Ec Eg El Em Pc Pg Pl Pm.
-  destruct HR as [Hidx Hname Hsc Hsg [l0 [Hl0 [Hlv Hlge]]] [m0 [Hm0 [Hmv Hmge]]] Hbc Hbg Hb0c Hb0g Hfc Hfg Hfl Hfm Hdc Hdg].
+  destruct HR as [Hidx Hname Hsc Hsg Hlv Hmv Hbc Hbg Hb0c Hb0g Hfc Hfg Hfl Hfm Hdc Hdg].
   assert (Hfc1 : ro_fit (nd_cores n) (s_cores s)).
   { unfold ro_fit in *. eapply Forall_impl; [|exact Hfitc]. intros p [Hp [a Ha]]. split; auto.
     rewrite (shifted_some_l _ _ _ _ _ Hsc Ha). eauto. }
@@ -211,7 +238,7 @@ Proof.
     rewrite (shifted_some_l _ _ _ _ _ Hsg Ha). eauto. }
   destruct (dealloc_list_ok _ _ Hfc1) as [cs' [Hdc1 Hshc]].
   destruct (dealloc_list_ok _ _ Hfg1) as [gs' [Hdg1 Hshg]].
-  eexists. unfold deallocate_slot. rewrite Hdc1, Hdg1, Hlv, Hmv. split; [reflexivity|].
+  eexists. unfold deallocate_slot. rewrite Hdc1, Hdg1. split; [reflexivity|].
   assert (Hc' : shifted fc' (nd_cores n0) cs').
   { eapply shifted_ext; [| eapply shifted_comp; [exact Hsc | exact Hshc]]. intro j. cbn. rewrite Ec. lia. }
   assert (Hg' : shifted fg' (nd_gpus n0) gs').
@@ -221,8 +248,8 @@ Proof.
   - exact Hname.
   - exact Hc'.
   - exact Hg'.
-  - exists l0. split; [exact Hl0 | split; [f_equal; lia | lia]].
-  - exists m0. split; [exact Hm0 | split; [f_equal; lia | lia]].
+  - exact (amount_rel_give _ _ _ _ _ Hlv El Hl).
+  - exact (amount_rel_give _ _ _ _ _ Hmv Em Hm).
   - intros p o Hp. destruct (shifted_some _ _ _ _ _ Hc' Hp) as [a [Ha ->]].
     pose proof (Hb0c _ _ Ha). pose proof (Pc (Z.of_nat p)).
     pose proof (Hbc _ _ (shifted_some_l _ _ _ _ _ Hsc Ha)) as Hold. rewrite Ec in Hold.
